@@ -56,6 +56,10 @@ class Transition:
             db.dialect = T.dialect
             T.prepare_db(ex, db)
             args = T.make_args(ex, db)
+            if getattr(T, 'via_client', False):
+                ex.env['via_client'] = True
+            if getattr(T, 'fault_hook', None):
+                ex.env['fault'] = T.fault_hook(ex)
             pre = db.snapshot()
             # replayable models: prefer small payloads (soft preference, not an assumption of the check)
             small = ex.env.setdefault('small_model', [])
